@@ -459,6 +459,9 @@ const OTHER: &[(&str, &str)] = &[
     ("@2020-01-01T10:30:00", "2020-01-01T10:30:00"), ("@2020-01-01T10:30:00Z", "2020-01-01T10:30:00Z"),
     ("@2020-01-01T10:30:00+02:00", "2020-01-01T10:30:00+02:00"), ("@2020-01-01T10:30:00-0800", "2020-01-01T10:30:00-08:00"),
     ("2days", "2"), ("3hours", "3"), ("1years", "1"), ("10microseconds", "10"), ("5months", "5"), ("7weeks", "7"),
+    // interval counts at and beyond the i64 boundary, and with digit separators: rejected, or the same count
+    ("9223372036854775807days", "9223372036854775807"), ("9223372036854775808days", "9223372036854775808"),
+    ("99999999999999999999hours", "99999999999999999999"), ("1_000years", "1000"), ("0days", "0"),
 ];
 
 pub fn run(tier: Tier) -> i32 {
